@@ -20,7 +20,7 @@ theorem decMany_encMany (e : Value → Except Err Bytes) (d : Dec Value) (vs : L
 /-- a primitive written by the writer the dispatch table picks is read back by the reader it
     picks (`optW`/`optR`: the `optional` flags writer and reader were looked up with) -/
 theorem prim_roundtrip (env : Env) (ht : env.time = TimeCfg.repaired) (hfl : FloatExact)
-    (k : KType) (flex optW optR : Bool) (hopt : optW = optR ∨ k = .uuid) (w : PrimW) (r : PrimR)
+    (k : KType) (flex optW optR : Bool) (hopt : (optW = true → optR = true) ∨ k = .uuid) (w : PrimW) (r : PrimR)
     (hw : getWriter k flex optW = .ok w) (hr : getReader k flex optR = .ok r)
     (v : Value) (hv : primValueOk env k true v = true) (bs : Bytes) (he : w.run env v = .ok bs)
     (rest : Bytes) : r.run env (bs ++ rest) = .ok (v, rest) :=
